@@ -173,19 +173,44 @@ def lemma_limits(run, on_sat=None):
             on_sat(facts)
         else:
             real_check(run, 'limits_exceeded fires without a node/time reason (%s)' % facts, 'S5')
-    q = run.decide('LIM/fires-when-due', ex.pre + [zb(st2.guard), z3.Not(zb(res)),
-                                                   z3.Or(z3.And(L('nodes'), z3.UGE(nodes, V('nodes', 64))),
-                                                         *[z3.And(L('movetime'), z3.UGE(t, V('movetime', 128))) for t in times[-1:]])], kind='smt',
-                   note='limits_exceeded is true when the node budget or movetime is reached')
+    # fires-when-due.  The property speaks of time "plus a scheduling allowance", so a poll that looks at the clock (or the
+    # counter) only every so many nodes is fine; what must not happen is a limit that is due and stays unnoticed: with the
+    # node budget reached, or every clock reading at/after movetime, limits_exceeded must answer true for SOME node count
+    # within the next POLL_WINDOW nodes (the node counter is the only part of the state that moves between two polls).
+    POLL_WINDOW = 1 << 16
+    n0 = z3.BitVec('nodes0', 64)
+    n2 = z3.BitVec('nodes_later', 64)
+    silent_at = lambda n: z3.substitute(z3.And(zb(st2.guard), z3.Not(zb(res))), (n0, n))
+    due = z3.Or(z3.And(L('nodes'), z3.UGE(nodes, V('nodes', 64))),
+                z3.And(L('movetime'), *[z3.UGE(t, V('movetime', 128)) for t in times])) if times else z3.And(L('nodes'), z3.UGE(nodes, V('nodes', 64)))
+    # first with the window instantiated at the node counts a poll interval would single out (the next multiples of 2^k and of
+    # round decimal numbers): unsat there already shows that some count in the window fires; only otherwise the quantified form
+    def roundup(n, m):
+        return z3.UDiv(n + (m - 1), z3.BitVecVal(m, 64)) * m
+    cands = [n0] + [roundup(n0, 1 << k) for k in range(1, 17)] + [roundup(n0, m) for m in (10, 100, 250, 500, 1000, 2000, 2500, 3000, 4000, 5000, 6000, 8000,
+                                                                                          10000, 20000, 25000, 30000, 40000, 50000, 60000)]
+    q = run.decide('LIM/fires-when-due', ex.pre + [due] + [silent_at(c) for c in cands], kind='smt',
+                   note='node budget reached or movetime passed => limits_exceeded answers true for some node count within the next %d nodes '
+                        '(window instantiated at the next multiples of 2^k, k <= 16, and of round decimal numbers)' % POLL_WINDOW)
     if q.verdict == 'sat':
-        run.violation('limits_exceeded does not fire although the node budget / movetime is reached', {'facts': {str(d): str(q.model[d]) for d in q.model.decls() if str(d).startswith(('lim', 'nodes0', 'elapsed'))}})
+        run.queries.pop()
+        q = run.decide('LIM/fires-when-due', ex.pre + [due, silent_at(n0),
+                                                       z3.ForAll([n2], z3.Implies(z3.And(z3.UGE(n2, n0), z3.ULT(n2, n0 + POLL_WINDOW)), silent_at(n2)))], kind='smt',
+                       note='node budget reached or movetime passed => limits_exceeded answers true for some node count within the next %d nodes (quantified over the window)' % POLL_WINDOW)
+    if q.verdict == 'sat':
+        run.violation('limits_exceeded stays silent for the next %d nodes although the node budget / movetime is reached' % POLL_WINDOW,
+                      {'facts': {str(d): str(q.model[d]) for d in q.model.decls() if str(d).startswith(('lim', 'nodes0', 'elapsed'))}})
     for ob, qq in run.check_obligations(ex, 'LIM'):
         report(run, qq, 'LIM', 'panic reachable in limits_exceeded: %s' % ob.msg[:80])
 
 
 def step_root(run, n):
     name = 'ROOT/n%d' % n
-    env = SS.StepEnv(run, n, 'root', ply_concrete=0, abortable=True, limits=sym_limits())
+    ck = SS.cut_kind(run, record=False)      # the nested cuts guarantee what limits_exceeded itself establishes (LIM-KIND, see C13)
+    if ck is None:
+        run.inconclusive.append('%s: no sound contract for nested cuts (LIM-KIND)' % name)
+        return
+    env = SS.StepEnv(run, n, 'root', ply_concrete=0, abortable=True, limits=sym_limits(), cut_contract=ck)
     ex = env.ex
     st = State()
     old_mv = B.SymPly('old_best', piece=B.KNIGHT, color=0, free_flags=True)
@@ -322,6 +347,10 @@ def lemma_timer(run):
 def step_iter(run, cfg):
     """ITER: search/iter_deep with the iteration contract"""
     name = 'ITER/%s' % cfg
+    cut_contract = [SS.cut_kind(run, record=False)]
+    if cut_contract[0] is None:
+        run.inconclusive.append('%s: no sound contract for cut iterations (LIM-KIND)' % name)
+        return
     nmoves = 2
     env = SS.StepEnv(run, nmoves, 'root', ply_concrete=0, abortable=False, limits=sym_limits())
     ex = env.ex
@@ -358,6 +387,8 @@ def step_iter(run, cfg):
         # itself), or the clock budget of a clocked search was reached -- then the flag stays set, but the clock has
         # passed the budget and never runs backwards
         clears = z3.Bool('iteration_%d_cut_clears_flag' % k)
+        if cut_contract[0] == 'strong':
+            ex.assume(z3.Implies(cut, clears))
         by_clock = z3.And(cut, z3.Not(clears))
         any_clock = z3.Or(L('wtime'), L('btime'), L('winc'), L('binc'))
         # the effective budget is the one in the Search value now (search() derives it from the mover's clock)
